@@ -10,6 +10,7 @@ import SciVerif.Facts.C03F2
 import SciVerif.Facts.C03F3
 import SciVerif.Facts.C03F4
 import SciVerif.Facts.C03F7
+import SciVerif.Facts.C03PrefShape
 import SciVerif.Facts.C03Unique
 import SciVerif.Facts.C03Positive
 import SciVerif.Facts.C03PrefixDefs
